@@ -26,37 +26,12 @@ Lemma eq_exec_for f en t vs b s : r_exec_for (I (S f)) en t vs b s = exec_for_st
 Lemma eq_exec_block f en cs s : r_exec_block (I (S f)) en cs s = exec_block_step (I f) en cs s. Proof. reflexivity. Qed.
 End Eqs.
 
+(* NB: proof files must say [Local Opaque interp.] -- otherwise conversion may try to
+   compare two [interp n] by unfolding, which is exponential in n. *)
 Ltac sx_unfold :=
-  match goal with
-  | |- context [r_eval (interp ?P ?O (S ?f)) ?en ?e ?s] =>
-      change (r_eval (interp P O (S f)) en e s) with (eval_step P (interp P O f) en e s)
-  | |- context [r_evals (interp ?P ?O (S ?f)) ?en ?e ?s] =>
-      change (r_evals (interp P O (S f)) en e s) with (evals_step (interp P O f) en e s)
-  | |- context [r_evalkw (interp ?P ?O (S ?f)) ?en ?e ?s] =>
-      change (r_evalkw (interp P O (S f)) en e s) with (evalkw_step (interp P O f) en e s)
-  | |- context [r_ocall (interp ?P ?O (S ?f)) ?g ?a ?kw ?s] =>
-      change (r_ocall (interp P O (S f)) g a kw s) with (ocall_step O (interp P O f) g a kw s)
-  | |- context [r_run_beh (interp ?P ?O (S ?f)) ?b ?n] =>
-      change (r_run_beh (interp P O (S f)) b n) with (run_beh_step P (interp P O f) b n)
-  | |- context [r_call_value (interp ?P ?O (S ?f)) ?v ?a ?kw ?s] =>
-      change (r_call_value (interp P O (S f)) v a kw s) with (call_value_step P (interp P O f) v a kw s)
-  | |- context [r_call_method (interp ?P ?O (S ?f)) ?v ?m ?a ?kw ?s] =>
-      change (r_call_method (interp P O (S f)) v m a kw s) with (call_method_step P (interp P O f) v m a kw s)
-  | |- context [r_call_fun (interp ?P ?O (S ?f)) ?n ?fd ?a ?kw ?s] =>
-      change (r_call_fun (interp P O (S f)) n fd a kw s) with (call_fun_step (interp P O f) n fd a kw s)
-  | |- context [r_assign (interp ?P ?O (S ?f)) ?en ?t ?v ?s] =>
-      change (r_assign (interp P O (S f)) en t v s) with (assign_step (interp P O f) en t v s)
-  | |- context [r_assigns (interp ?P ?O (S ?f)) ?en ?t ?v ?s] =>
-      change (r_assigns (interp P O (S f)) en t v s) with (assigns_step (interp P O f) en t v s)
-  | |- context [r_exec (interp ?P ?O (S ?f)) ?en ?c ?s] =>
-      change (r_exec (interp P O (S f)) en c s) with (exec_step (interp P O f) en c s)
-  | |- context [r_handle (interp ?P ?O (S ?f)) ?en ?x ?hs ?s] =>
-      change (r_handle (interp P O (S f)) en x hs s) with (handle_step P (interp P O f) en x hs s)
-  | |- context [r_exec_for (interp ?P ?O (S ?f)) ?en ?t ?vs ?b ?s] =>
-      change (r_exec_for (interp P O (S f)) en t vs b s) with (exec_for_step (interp P O f) en t vs b s)
-  | |- context [r_exec_block (interp ?P ?O (S ?f)) ?en ?cs ?s] =>
-      change (r_exec_block (interp P O (S f)) en cs s) with (exec_block_step (interp P O f) en cs s)
-  end.
+  first [ rewrite eq_exec_block | rewrite eq_exec | rewrite eq_eval | rewrite eq_evals | rewrite eq_evalkw
+        | rewrite eq_assign | rewrite eq_assigns | rewrite eq_call_value | rewrite eq_call_method
+        | rewrite eq_call_fun | rewrite eq_ocall | rewrite eq_run_beh | rewrite eq_handle | rewrite eq_exec_for ].
 
 Ltac sx_red :=
   cbv beta iota zeta delta
